@@ -264,6 +264,19 @@ def buildReq (a : Ammo) : Option Req :=
            hdrs := sortHdrs (a.hdrs.filter (fun kv => kv.1 != hostKey))
            body := a.body, tag := a.tag }
 
+/-- the provider's `headers` option (decoded by `DecodeHTTPConfigHeaders`, keys canonical) is added by the uri and
+uripost decoders where the ammo file did NOT define that (canonical) key: headers of the file have priority.
+(`http/json`: `header := cfg.Clone(); header.Set(k, v)` for the entity's headers — the same map.) -/
+def mergeCfg (h cfg : Hdrs) : Hdrs :=
+  cfg.foldl (fun acc kv => if (hget acc (canonKey kv.1)).isSome then acc else acc ++ [(canonKey kv.1, kv.2)]) h
+
+def Ammo.withCfg (cfg : Hdrs) (a : Ammo) : Ammo := { a with hdrs := mergeCfg a.hdrs cfg }
+
+/-- the model covers `headers` options whose canonical keys are distinct (a repeated key makes a multi-valued header) -/
+def cfgDistinct : Hdrs → Bool
+  | [] => true
+  | kv :: r => !(r.any fun x => canonKey x.1 == canonKey kv.1) && cfgDistinct r
+
 /-- all present, or nothing -/
 def allSome {α : Type} : List (Option α) → Option (List α)
   | [] => some []
@@ -273,13 +286,15 @@ def allSome {α : Type} : List (Option α) → Option (List α)
 /-! ### provider level: passes, wrap-around, limit -/
 
 inductive Err where
-  | hdrformat | emptykey | wrongsize | ammoformat | rawsize | shortread | noammo | toolong | badmethod | panic
+  | hdrformat | emptykey | wrongsize | ammoformat | rawsize | shortread | noammo | toolong | badmethod
+  | negsize     -- `readSized`: "ammo size should not be negative" (before the repair 8bca4e3: `make([]byte, n)` panicked)
+  | urlclass    -- the entry's target is outside the class where the model knows `url.Parse`: outcome not predicted
 deriving DecidableEq, Repr
 
 def Err.name : Err → String
   | .hdrformat => "hdrformat" | .emptykey => "emptykey" | .wrongsize => "wrongsize" | .ammoformat => "ammoformat"
   | .rawsize => "rawsize" | .shortread => "shortread" | .noammo => "noammo" | .toolong => "toolong"
-  | .badmethod => "badmethod" | .panic => "panic"
+  | .badmethod => "badmethod" | .negsize => "negsize" | .urlclass => "urlclass"
 
 /-- how one pass over the file ended -/
 inductive Stop where
